@@ -69,7 +69,7 @@ def encoder_field_reads(an: Analysis, V):
     return field_reads(an, "to_code", V)
 
 
-def inline_locals(fn_node: ast.AST, expr: ast.AST, depth: int = 4, keep_calls: bool = False) -> ast.AST:
+def inline_locals(fn_node: ast.AST, expr: ast.AST, depth: int = 4, keep_calls: bool = False, keep=()) -> ast.AST:
     """Substitute names assigned exactly once in the function by their defining expression."""
     assigns: Dict[str, List[ast.AST]] = {}
     for n in ast.walk(fn_node):
@@ -88,7 +88,7 @@ def inline_locals(fn_node: ast.AST, expr: ast.AST, depth: int = 4, keep_calls: b
 
     class Sub(ast.NodeTransformer):
         def visit_Name(self, n):
-            if isinstance(n.ctx, ast.Load) and n.id not in params and len(assigns.get(n.id, [])) == 1 and assigns[n.id][0] is not None:
+            if isinstance(n.ctx, ast.Load) and n.id not in params and n.id not in keep and len(assigns.get(n.id, [])) == 1 and assigns[n.id][0] is not None:
                 if keep_calls and isinstance(assigns[n.id][0], ast.Call):
                     return n
                 return copy.deepcopy(assigns[n.id][0])
